@@ -32,6 +32,23 @@ CHECKS = {
          "Kill behaviour is real (exact files); power loss is a model (unsynced contents arbitrary, last rename may be "
          "lost). The sqlite build-id cache is not part of the property and not covered.",
          "3 (C10)", "own tracer (checks/c10_state.py)"),
+ "C08": ("exploration",
+         "Hypothesis tree/mutation/hostile-member generators; round-trip oracle (independent canonicaliser + hashDirectory), corruption oracle 'rejected or identical' through the real download path and end to end through bob dev --download=forced, confinement oracle via canary directory diff",
+         "Generated trees are packed and extracted through LocalArchive; generated corruptions (truncation at generated / in thorough "
+         "every length, bit flips, structural rewrites) must be rejected or yield an identical result, at API level and end to end; "
+         "archives from a grammar of hostile members must not change anything outside workspace and audit file.",
+         "Trusted: vlib/treecanon.py; Python's tarfile/gzip to build hostile archives. http/azure back-ends are not exercised. "
+         "Extraction that blocks on a fifo member (denial of service) is counted, not reported.",
+         "3 (C08)", "E4 treecanon, E1 bobproc"),
+ "C19": ("exploration",
+         "Hypothesis archive+history generation; reference evaluator for the retention language with validity predicate for LIMIT/ORDER BY ties (model-based oracle), executed through the real `bob archive` command line",
+         "Generated archives of real artifacts and histories of scan/add/remove/re-upload/clean/find commands with generated "
+         "expression lists; after every command the files on disk / the printed set must be a valid outcome of a reference "
+         "evaluator written from the manual, evaluated on the actual archive content (index transparency).",
+         "Trusted: the reference evaluator in checks/c19_retention.py. Cases the manual leaves open (undefined == undefined, "
+         "errors behind short-circuit) are skipped and counted. Commands run in-process; any suspected violation is re-run in "
+         "fresh processes before it is reported.",
+         "3 (C19)", "E1 bobproc"),
 }
 
 NOT_YET = {}
